@@ -128,21 +128,24 @@ func mergeSummary(tot, s *summary) {
 }
 
 type failRec struct {
-	Property string              `json:"property"`
-	Tier     string              `json:"tier"`
-	Variant  string              `json:"variant,omitempty"`
-	Seed     uint64              `json:"seed"`
-	Index    int                 `json:"run_index"`
-	RunSeed  uint64              `json:"run_seed"`
-	Tape     map[string][]uint32 `json:"tape"`
-	Clause   string              `json:"clause"`
-	Key      string              `json:"key,omitempty"`
-	Detail   string              `json:"detail"`
-	Hash     string              `json:"event_log_hash"`
-	Sample   any                 `json:"case,omitempty"`
-	Trace    []string            `json:"trace,omitempty"`
-	Shrunk   any                 `json:"shrink,omitempty"`
-	Replay   string              `json:"replay_cmd,omitempty"`
+	Property       string              `json:"property"`
+	Tier           string              `json:"tier"`
+	Variant        string              `json:"variant,omitempty"`
+	Seed           uint64              `json:"seed"`
+	Index          int                 `json:"run_index"`
+	RunSeed        uint64              `json:"run_seed"`
+	Tape           map[string][]uint32 `json:"tape"`
+	ProcStart      int                 `json:"found_in_process_started_at_run"`
+	ProcStep       int                 `json:"found_in_process_run_step"`
+	ProcessHistory []int               `json:"process_history,omitempty"`
+	Clause         string              `json:"clause"`
+	Key            string              `json:"key,omitempty"`
+	Detail         string              `json:"detail"`
+	Hash           string              `json:"event_log_hash"`
+	Sample         any                 `json:"case,omitempty"`
+	Trace          []string            `json:"trace,omitempty"`
+	Shrunk         any                 `json:"shrink,omitempty"`
+	Replay         string              `json:"replay_cmd,omitempty"`
 }
 
 type replayOut struct {
@@ -157,6 +160,13 @@ type replayOut struct {
 }
 
 // buildWorker rewrites the current /repo tree and builds the worker binary.
+func imin(a, b int) int {
+	if a < b {
+		return a
+	}
+	return b
+}
+
 // headTail keeps the beginning (the reason) and the end of a dead worker's stderr.
 func headTail(b []byte, h, t int) string {
 	if len(b) <= h+t {
@@ -242,8 +252,8 @@ func cmdCheck(args []string) {
 		os.Exit(code)
 	}
 	bin, rst := buildWorker(scratch, cfg.Variant)
-	fmt.Printf("verifsim: overlay from %s: %d packages, %d files rewritten (%d imports, %d go statements, %d channel operations, %d dynamic makes, %d map ranges, %d loop yields); build %.1fs\n",
-		repoDir(), rst.Packages, rst.Files, rst.Imports, rst.GoStmts, rst.ChanOps, rst.Makes, rst.MapRanges, rst.LoopYields, time.Since(start).Seconds())
+	fmt.Printf("verifsim: overlay from %s: %d packages, %d files rewritten (%d imports, %d go statements, %d channel operations, %d dynamic makes, %d map ranges, %d loop yields, %d tuning knobs); build %.1fs\n",
+		repoDir(), rst.Packages, rst.Files, rst.Imports, rst.GoStmts, rst.ChanOps, rst.Makes, rst.MapRanges, rst.LoopYields, rst.Knobs, time.Since(start).Seconds())
 
 	// known findings of this property
 	var knownKeys []string
@@ -457,7 +467,73 @@ func cmdCheck(args []string) {
 				fatal2("bad replay output: %v", err)
 			}
 		}
-		if !r[0].Failed || !r[1].Failed || r[0].Clause != min.Clause || r[1].Clause != min.Clause || r[0].Hash != r[1].Hash {
+		same := func() bool {
+			return r[0].Failed && r[1].Failed && r[0].Clause == min.Clause && r[1].Clause == min.Clause && r[0].Hash == r[1].Hash
+		}
+		if !same() {
+			// The tape alone does not fail in a fresh process: the code under test may
+			// keep state across runs of one process. Replay the failing run after the
+			// runs its worker process had executed before it, then drop as many of
+			// those as the failure allows.
+			histFile := filepath.Join(scratch, "hist.json")
+			replayHist := func(hist []int, out *[2]replayOut, n int) bool {
+				h := *fr
+				h.ProcessHistory = hist
+				writeJSON(histFile, &h)
+				for i := 0; i < n; i++ {
+					so, _, err := runWorker(bin, cfg.MemLimitMB, []string{"GOMAXPROCS=" + []string{"16", "2"}[i]}, "replay", "-in", histFile, "-trace")
+					if err != nil || json.Unmarshal(so, &out[i]) != nil {
+						return false
+					}
+					if !out[i].Failed || out[i].Clause != fr.Clause {
+						return false
+					}
+				}
+				return n < 2 || out[0].Hash == out[1].Hash
+			}
+			var hist []int
+			var rh [2]replayOut
+			if !replayHist(nil, &rh, 2) && fr.ProcStep > 0 {
+				for i := fr.ProcStart; i < fr.Index; i += fr.ProcStep {
+					hist = append(hist, i)
+				}
+			}
+			if replayHist(hist, &rh, 2) {
+				full := len(hist)
+				deadline := time.Now().Add(shrinkBudget)
+				for chunk := (len(hist) + 1) / 2; chunk >= 1 && time.Now().Before(deadline); {
+					removed := false
+					for at := 0; at < len(hist) && time.Now().Before(deadline); {
+						cand := append(append([]int(nil), hist[:at]...), hist[imin(at+chunk, len(hist)):]...)
+						var tmp [2]replayOut
+						if replayHist(cand, &tmp, 1) {
+							hist = cand
+							removed = true
+						} else {
+							at += chunk
+						}
+					}
+					if chunk == 1 && !removed {
+						break
+					}
+					if chunk > 1 {
+						chunk = (chunk + 1) / 2
+					}
+				}
+				if replayHist(hist, &rh, 2) {
+					h := *fr
+					h.ProcessHistory = hist
+					min = &h
+					r = rh
+					if len(hist) == 0 {
+						fmt.Printf("verifsim: the minimised tape does not fail in a fresh process (the code under test keeps state across the runs of the shrinking process); the unshrunk tape does and is reported\n")
+					} else {
+						fmt.Printf("verifsim: the failing run passes in a fresh process and fails after earlier runs of the same process: state survives between runs; process history minimised from %d to %d runs %v\n", full, len(hist), hist)
+					}
+				}
+			}
+		}
+		if !same() {
 			fmt.Fprintf(os.Stderr, "verifsim: the failure did not reproduce identically in fresh processes (failed=%v/%v clause=%q/%q hash=%s/%s): not reported as a violation, exit 2\n",
 				r[0].Failed, r[1].Failed, r[0].Clause, r[1].Clause, r[0].Hash, r[1].Hash)
 			exit(2)
